@@ -1,5 +1,6 @@
 import SkyllhModel.Proto
 import SkyllhModel.Model.Flux
+import SkyllhModel.Model.FluxRvR7
 import SkyllhModel.Generated.C13
 open Proto Flux
 
@@ -13,6 +14,8 @@ open Proto Flux
     heap (stateful):
       reset | new <kind> <floats> | newffm phi0 refs | set i n1=v1,n2=v2 | move i dt | copy i
       get i name | names i | view i
+    random variable of a time profile (round 7; state 0 = at creation, state 1 = live profile at the call):
+      rv kind s0 e0 sg0 s1 e1 sg1 x xs ys  ->  <a>,<b>,<norm> <pdf|none> <cdf|none>   |  ERR (not a time profile)
 -/
 
 def pU (s : String) : Option Float := if s == "-" then none else some (pF s)
@@ -99,12 +102,33 @@ def fOpt : Option Float → String
   | some x => fF x
   | none => "none"
 
+def mkTime (kind : String) (s e sg : Float) : Cell Float :=
+  match kind with
+  | "unityT" => .unityT ⟨s, e⟩
+  | "box" => .box ⟨s, e⟩
+  | "gauss" => .gauss ⟨s, e, sg, 0.0⟩
+  | _ => .unityE
+
+def rvOp : List String → String
+  | [kind, s0, e0, sg0, s1, e1, sg1, x, xs, ys] =>
+      let erf := erfTab (pList pF xs) (pList pF ys)
+      let c0 := mkTime kind (pF s0) (pF e0) (pF sg0)
+      let c1 := mkTime kind (pF s1) (pF e1) (pF sg1)
+      match rvNew (Gen.C13.rvNormDefault : Float) erf c0 with
+      | none => "ERR"
+      | some r =>
+        let loc : Float := Gen.C13.rvLoc
+        let scale : Float := Gen.C13.rvScale
+        s!"{fF r.a},{fF r.b},{fF r.norm} {fOpt (rvPdfCell loc scale r c1 (pF x))} {fOpt (rvCdfCell loc scale erf r c1 (pF x))}"
+  | _ => "bad-op"
+
 def stepLine (h : Heap Float) (line : String) : Heap Float × String :=
   let toks := tokens line
   match pure' toks with
   | some r => (h, r)
   | none =>
   match toks with
+  | "rv" :: rest => (h, rvOp rest)
   | ["reset"] => ([], "ok")
   | ["new", kind, xs] => match mkCell kind (pList pF xs) with
       | some c => (h ++ [c], toString h.length)
